@@ -32,6 +32,9 @@ func (sa *StructAccessor) Set(key string, value interface{}) error {
 
 	// set directly if type matches
 	if newVal.Kind() == field.Kind() {
+		if !newVal.Type().AssignableTo(field.Type()) {
+			return fmt.Errorf("tried to set field %s (%s) to a %s value", key, field.Type().String(), newVal.Type().String())
+		}
 		field.Set(newVal)
 		return nil
 	}
